@@ -12,6 +12,7 @@ mod eng;
 mod c15;
 mod c14;
 mod c02;
+mod c13;
 
 fn main() {
     let args: Vec<String> = std::env::args().collect();
@@ -30,6 +31,7 @@ fn main() {
         "c16" => c15::main16(rest),
         "c14" => c14::main(rest),
         "c02" => c02::main(rest),
+        "c13" => c13::main(rest),
         other => {
             eprintln!("unknown property {other}");
             std::process::exit(2);
